@@ -54,7 +54,7 @@ def _parse_file(path, modname, incrate):
                 for cfg in cfgs:
                     specs.append({
                         "name": name,
-                        "mod": ("batch::verif_incrate" if incrate else modname),
+                        "mod": ("batch::verif_incrate::proofs" if incrate else modname),
                         "cfg": cfg,
                         "key": name + "@" + cfg,
                         "props": kv.get("props", "").split(","),
